@@ -14,6 +14,7 @@ Reason(e) ==
          ELSE ""
     [] e.ev = "reread" -> IF \E i \in 1..Len(e.unchanged) : ~e.unchanged[i] THEN "returned_fragment_aliases_input" ELSE ""
     [] e.ev = "callerwrite" -> IF ~e.others_unchanged THEN "returned_fragments_share_memory" ELSE ""      \* the caller appended to one fragment and wrote over another
+    [] e.ev = "parallel" -> IF ~e.same_as_alone THEN "concurrent_instances_interfere" ELSE ""      \* four more instances, each on its own goroutine, same history
     [] OTHER -> "unknown_event"
 Init == l = 1 /\ st = FALSE
 Next ==
